@@ -20,6 +20,7 @@ type SV struct {
 	Addr string // address of a struct place in the heap
 	Nil  bool   // untyped nil
 	FRef *Val   // pointer to a scalar field (from &x.f) — only deref allowed
+	LazyPtr bool // stands for a pointer to a not-yet-materialised local: T/Ty are the pointee's value and type
 }
 
 type specCtx struct {
@@ -105,8 +106,18 @@ func (e *Enc) bindLocal(sc *specCtx, name string, a *ssa.Alloc, st *State, fc *f
 				sc.vars[name] = SV{T: e.loadAt(st, m, et), Ty: et}
 			}
 		} else if !a.Heap || e.lazy[a] {
-			if t, ok := st.loc[a]; ok {
+			if t, ok := st.loc[a]; ok && !strings.HasPrefix(t, "@lazy!") {
 				sc.vars[name] = e.svOfTerm(t, et)
+			} else if ok {
+				// a pointer to a not-yet-materialised local: usable in contracts through its pointee
+				ref := e.lazyRef(st, t)
+				if ref.K == vLocal && len(ref.Path) == 0 {
+					if pv, ok := st.loc[ref.Alloc]; ok {
+						sc.vars[name] = SV{T: pv, Ty: ref.Alloc.Type().(*types.Pointer).Elem(), LazyPtr: true}
+					}
+				} else if ref.K == vTerm {
+					sc.vars[name] = e.svOfTerm(ref.T, et)
+				}
 			}
 		} else if v, ok := fc.vals[a]; ok && v.K == vTerm {
 			if isStruct(et) && e.m.structOf(et) != nil {
@@ -602,6 +613,9 @@ func (sc *specCtx) heapFact(t string, ty types.Type) {
 func (sc *specCtx) sel(n *SSel) SV {
 	e := sc.e
 	v := sc.val(n.X)
+	if v.LazyPtr {
+		v = SV{T: v.T, Ty: v.Ty} // p.f where p points to a local value: select on the value itself
+	}
 	t := v.Ty
 	addr := v.Addr
 	if pt, ok := t.Underlying().(*types.Pointer); ok {
